@@ -5,7 +5,7 @@
    deduplication and filtering, peer-reflexive supersession) are decided by the extracted monitor
    C06.* on the implementation's observations and by the model/implementation correspondence.  The
    clause "no (local, remote) pair is listed twice" is refuted by one exotic history (known finding
-   C06.no_duplicate_pairs.two_prflx_superseded). *)
+   C06.no_duplicate_pairs.two_prflx_superseded; witness on the model: Findings/F_C06_two_prflx.v). *)
 From Coq Require Import ZArith Bool List.
 From Ice Require Import Model.AgentTypes Model.AgentCore Gen.Consts Proofs.AgentFrame Proofs.AgentC06.
 Import ListNotations.
